@@ -1181,6 +1181,19 @@ class Rewriter:
             code = code[:mm_fl.start()] + '{ let lines__ = %s.vx_lines(); for %s in lines__.iter() ' % (e, v) + code[ob:cb + 1] + ' }' + code[cb + 1:]
             k_fl += 1
         self.note('for x in s.lines()->for x in s.vx_lines().iter()', k_fl)
+        # `for x in E.lines().take(N) {` -> the first N collected lines
+        k_ft = 0
+        while True:
+            m_fl = mask(code)
+            mm_fl = re.search(r'(?<![A-Za-z0-9_])for\s+([a-z_][a-z0-9_]*)\s+in\s+([A-Za-z_][A-Za-z0-9_.]*)\s*\.\s*lines\s*\(\s*\)\s*\.\s*take\s*\(\s*([A-Za-z0-9_:.]+)\s*\)\s*\{', m_fl)
+            if not mm_fl:
+                break
+            ob = mm_fl.end() - 1
+            cb = match_close(m_fl, ob)
+            v, e, n_ = mm_fl.group(1), mm_fl.group(2), mm_fl.group(3)
+            code = code[:mm_fl.start()] + '{ let lines__ = vx::vec_take(%s.vx_lines(), %s); for %s in lines__.iter() ' % (e, n_, v) + code[ob:cb + 1] + ' }' + code[cb + 1:]
+            k_ft += 1
+        self.note('for x in s.lines().take(n)->for x in vx::vec_take(s.vx_lines(), n).iter()', k_ft)
         # `for x in &V[A..B] {` -> counter loop over the same index range (the range check of the slice is kept as a call)
         k_sl = 0
         while True:
